@@ -60,18 +60,25 @@ def run(mod, tier, seed):
     t1 = time.time()
     res, lines = loadlib.run_impl(tuples, impl)
     mism = []
+    line_failures = []
     if model_exe:
         mout, _ = loadlib.run_model(tuples, res, model_exe)
         for i, (r, m) in enumerate(zip(res, mout)):
             d = loadlib.compare(r, m)
             if d is not None:
                 mism.append((i, d))
+                if getattr(mod, 'DIAG_LINES_ARE_PROPERTY', False):
+                    dl = loadlib.diag_line_difference(r, m)
+                    if dl is not None:
+                        line_failures.append((i, 'diagnostic %s carries line %s, but the problem is detected at the token on line %s '
+                                                 '(position of the last token taken: theorem C06_diagnostic_position)' % dl))
     t_corr = time.time() - t1
     failures = []
     for i, c in enumerate(cases):
         why = mod.oracle(c, res[i], cases, res)
         if why is not None:
             failures.append((i, why))
+    failures += line_failures
     keys = set()
     for i, c in enumerate(cases):
         k = mod.nontrivial_key(c, res[i])
@@ -113,6 +120,16 @@ def run(mod, tier, seed):
                               'case': sx.enc([case['text'], 1 if case.get('strict') else 0, [case['spec']] if case.get('spec') else [], case.get('cycles', 0)]),
                               'why': why, 'stage': 'W (property oracle on the implementation)'})
         reported += 1
+    if hasattr(mod, 'extra_stage'):
+        for ex in mod.extra_stage(v, tier, rng, impl):
+            key = ex.get('known_key')
+            if key is not None and key in known:
+                v.known(key, known[key])
+                continue
+            if reported >= 3:
+                continue
+            v.violation('input', ex['payload'])
+            reported += 1
     if reported == 0:
         if not t_info.get('ok', True):
             v.violation('translate', {'stage': 'T', 'broken': t_info.get('what'), 'detail': t_info.get('detail')}, no_input=True)
